@@ -209,8 +209,20 @@ func (j *jsonWriter) Struct(tag int, f func(writer)) {
 // TextString implements writer.
 func (j *jsonWriter) TextString(tag int, str string) {
 	j.encodeAppend(TypeTextString, tag, func(b []byte) []byte {
-		return strconv.AppendQuote(b, str)
+		return appendJSONString(b, str)
 	})
+}
+
+// appendJSONString appends str as a JSON string literal. strconv.AppendQuote is not
+// suitable here: it emits Go escapes (\x7f, \a, \v) that are not valid JSON.
+func appendJSONString(b []byte, str string) []byte {
+	buf := bytes.Buffer{}
+	enc := json.NewEncoder(&buf)
+	enc.SetEscapeHTML(false)
+	if err := enc.Encode(str); err != nil {
+		return strconv.AppendQuote(b, str)
+	}
+	return append(b, bytes.TrimSuffix(buf.Bytes(), []byte("\n"))...)
 }
 
 type jsonReader struct {
